@@ -206,6 +206,14 @@ class CSSMediaRule(cssrule.CSSRuleRules):
                                         '%s.' % self._valuestr(tokens),
                                         token=token,
                                         error=xml.dom.HierarchyRequestErr)
+                    elif atval == '@media' and self._nestingDepth() >= 30:
+                        # (every level costs some frames of the Python stack:
+                        # refuse instead of running into RecursionError)
+                        self._log.error('CSSMediaRule: @media rules nested '
+                                        'too deep - ignored: %s.'
+                                        % self._valuestr(tokens)[:50],
+                                        token=token,
+                                        error=xml.dom.HierarchyRequestErr)
                     elif atval in factories:
                         rule = factories[atval](
                             parentRule=self,
@@ -255,6 +263,13 @@ class CSSMediaRule(cssrule.CSSRuleRules):
     cssText = property(_getCssText, _setCssText,
                        doc="(DOM) The parsable textual representation of this "
                            "rule.")
+
+    def _nestingDepth(self):
+        "number of @media rules this one is nested in"
+        depth, rule = 0, self.parentRule
+        while rule is not None:
+            depth, rule = depth + 1, rule.parentRule
+        return depth
 
     def _setName(self, name):
         # Under Python 2.x this was basestring but given unicode literals ...
